@@ -473,9 +473,8 @@ class ExcelModel:
             if not isinstance(k, sh.Token)
         }
         nodes = {
-            k: isinstance(v, str) and v.startswith('=') and '="%s"' % v.replace(
-                '"', '""'
-            ) or v
+            k: isinstance(v, str) and not isinstance(v, sh.Token) and
+               Cell.parser.is_formula(v) and '="%s"' % v.replace('"', '""') or v
             for k, v in nodes.items()
         }
         nodes = {
